@@ -7,6 +7,7 @@ import (
 	"errors"
 	"fmt"
 	"io"
+	"io/fs"
 	"log"
 	"net"
 	"net/http"
@@ -145,9 +146,48 @@ type c20Err struct{ code int64 }
 
 func (e c20Err) Error() string { return "verr#" + strconv.FormatInt(e.code, 10) }
 
+// c20Shaped is a scripted failure that has the identity of an error a real task can return (the chains of the real tasks
+// keep their %w links up to Serve): which error it is must not matter, "a fatal error in any task cancels all the others
+// and serving returns that error".
+type c20Shaped struct {
+	c20Err
+	prefix string
+	id     error
+}
+
+func (e c20Shaped) Error() string        { return e.prefix + e.id.Error() + ": " + e.c20Err.Error() }
+func (e c20Shaped) Is(target error) bool { return errors.Is(e.id, target) }
+func (e c20Shaped) Unwrap() error        { return e.id }
+func (e c20Shaped) Timeout() bool {
+	var t interface{ Timeout() bool }
+	return errors.As(e.id, &t) && t.Timeout()
+}
+
+var c20Identities = []struct {
+	prefix string
+	id     error
+}{
+	{"failed to get IPv6 forwarding state: ", &fs.PathError{Op: "open", Path: "/proc/sys/net/ipv6/conf/ppp0/forwarding", Err: syscall.ENOENT}},
+	{"", os.ErrNotExist},
+	{"failed to run advertiser: ", context.Canceled},
+	{"read: ", os.ErrDeadlineExceeded},
+	{"", context.DeadlineExceeded},
+	{"http: ", http.ErrServerClosed},
+	{"", system.ErrLinkNotReady},
+	{"use of closed connection: ", net.ErrClosed},
+	{"", io.EOF},
+	{"write: ", &net.OpError{Op: "write", Err: os.NewSyscallError("sendmsg", syscall.ENOBUFS)}},
+	{"", os.ErrPermission},
+}
+
 func c20ErrOf(code int64) error {
 	if code == 0 {
 		return nil
+	}
+	// two of three scripted failures carry such an identity, chosen by the code
+	if k := int(code % int64(3*len(c20Identities))); k < 2*len(c20Identities) {
+		sh := c20Identities[k%len(c20Identities)]
+		return c20Shaped{c20Err{code}, sh.prefix, sh.id}
 	}
 	return c20Err{code}
 }
